@@ -471,6 +471,16 @@ M("C06", "segmentation-remembers-last-result", "iodata/convert.py", r"    return
 
 T("C13", "pdb-record-head-through-helper", F + "pdb.py", r"        try:\n            line = next\(lit\)\n        except StopIteration:\n            break\n        # If the PDB file has a title", "        try:\n            line = _next_record(lit)\n        except StopIteration:\n            break\n        # If the PDB file has a title", also=[(r"\ndef _parse_pdb_conect_line\(line\):", "\ndef _next_record(lit):\n    return next(lit)\n\n\ndef _parse_pdb_conect_line(line):")])
 
+M("C03", "vasp-scaling-dropped-from-cartesian-positions", F + "chgcar.py", r"atcoords = np\.array\(atcoords\) \* angstrom \* scaling", "atcoords = np.array(atcoords) * angstrom", "C03-R22")
+M("C04", "vasp-scaling-dropped-from-cell", F + "chgcar.py", r"    cellvecs \*= angstrom \* scaling", "    cellvecs *= angstrom", "C04-R7")
+M("C03", "vasp-direct-from-the-wrong-side", F + "chgcar.py", r"atcoords = np\.dot\(np\.array\(atcoords\), cellvecs\)", "atcoords = np.dot(cellvecs, np.array(atcoords).T).T", "C03-R22")
+T("C03", "vasp-direct-by-einsum", F + "chgcar.py", r"atcoords = np\.dot\(np\.array\(atcoords\), cellvecs\)", "atcoords = np.einsum(\"ai,ij->aj\", np.array(atcoords), cellvecs)")
+M("C03", "vasp-counts-zipped-reversed", F + "chgcar.py", r"    for n, c in zip\(vasp_atnums, vasp_counts\):", "    for n, c in zip(vasp_atnums, reversed(vasp_counts)):", "C03-R22")
+M("C02", "cube-header-axes-columns", F + "cube.py", r"        x, y, z = cube\.axes\[i\]", "        x, y, z = cube.axes[:, i]", "C02-R25")
+M("C02", "cube-header-core-charge-column", F + "cube.py", r"\{atnums\[i\]:5d\} \{q: 11\.6f\}", "{int(q):5d} {atnums[i]: 11.6f}", "C02-R25")
+M("C02", "poscar-fractional-with-untransposed-inverse", F + "poscar.py", r"gvecs = np\.linalg\.inv\(data\.cellvecs\)\.T", "gvecs = np.linalg.inv(data.cellvecs)", "C02-R26")
+T("C02", "poscar-fractional-by-solve-free-form", F + "poscar.py", r"            row = np\.dot\(gvecs, data\.atcoords\[index\]\)", "            row = np.dot(data.atcoords[index], gvecs.T)")
+
 
 def _run_one(args):
     spec, repo = args
